@@ -753,6 +753,8 @@ def render8(t, rng, p):
     k = t[0]
     if k in ('err', 'num'):
         s = t[2]
+    elif k == 'arr':
+        s = t[1]
     elif k == 'neg':
         s = '-(' + render8(t[1], rng, p) + ')'
     elif k == 'call':
